@@ -113,6 +113,9 @@ func filterSig(want, got []string) string {
 // be routed, and returns the status the server has to answer with.
 func damagePath(c *harness.Ctx, w *World, call *Call) {
 	kind := c.Choose(4, "path-damage")
+	if w.mount == "prefix" && c.Choose(4, "glue-prefix") == 3 {
+		kind = 4
+	}
 	call.Mutate = func(req *http.Request, e *Exchange) {
 		p := req.URL.EscapedPath()
 		prefix := ""
@@ -150,6 +153,10 @@ func damagePath(c *harness.Ctx, w *World, call *Call) {
 				segs = segs[:len(segs)-1]
 				call.wantStatus, name = 400, "damage-dropped-key"
 			}
+		case 4: // the mount prefix glued to the resource name without a separator: not below the prefix
+			if prefix != "" {
+				call.wantStatus, name = 404, "damage-glued-prefix"
+			}
 		case 3: // add a key to a method that takes none
 			if call.Res.Kind == "collection" && !entityLevel {
 				segs = append(segs, "extrakey")
@@ -164,6 +171,9 @@ func damagePath(c *harness.Ctx, w *World, call *Call) {
 			return
 		}
 		np := prefix + "/" + strings.Join(segs, "/")
+		if name == "damage-glued-prefix" {
+			np = prefix + strings.Join(segs, "/")
+		}
 		u := *req.URL
 		u.RawPath = ""
 		u.Path = ""
